@@ -2,6 +2,7 @@ package plan
 
 import (
 	"bytes"
+	"cmp"
 	"fmt"
 	"slices"
 
@@ -111,8 +112,8 @@ func (c *nodeSelectionVisitor) pruneStaleFieldRequirements() {
 	}
 
 	c.fieldRefDependsOn = make(map[int][]int, len(c.fieldDependsOn))
-	for fieldKey, deps := range c.fieldDependsOn {
-		for _, dep := range deps {
+	for _, fieldKey := range sortedFieldIndexKeys(c.fieldDependsOn) {
+		for _, dep := range c.fieldDependsOn[fieldKey] {
 			if slices.Contains(c.fieldRefDependsOn[fieldKey.fieldRef], dep) {
 				continue
 			}
@@ -128,6 +129,22 @@ type fieldDependencyKey struct {
 type fieldIndexKey struct {
 	fieldRef int
 	dsHash   DSHash
+}
+
+// sortedFieldIndexKeys returns the keys of a fieldDependsOn index in a fixed order, so that
+// whatever is derived from the index does not depend on map iteration order.
+func sortedFieldIndexKeys(index map[fieldIndexKey][]int) []fieldIndexKey {
+	keys := make([]fieldIndexKey, 0, len(index))
+	for key := range index {
+		keys = append(keys, key)
+	}
+	slices.SortFunc(keys, func(a, b fieldIndexKey) int {
+		if c := cmp.Compare(a.fieldRef, b.fieldRef); c != 0 {
+			return c
+		}
+		return cmp.Compare(a.dsHash, b.dsHash)
+	})
+	return keys
 }
 
 // selectionSetPendingRequirements - is a wrapper to been able to have predictable order of keyRequirements but at the same time deduplicate keyRequirements
